@@ -674,6 +674,128 @@ end proofs
 
 /-! ### Non-vacuity: the 7-leaf MMR over free terms, leaf 4 (position 7) -/
 
+/-! ## 5. Views at a size and pruned backends
+
+`PMMR::at`, `ReadonlyPMMR::at` and `RewindablePMMR` (moved to any size, in either direction) read
+the first `size` positions of the backend; the remove log hides pruned leaves from `get_hash`
+only. A view at the size reached after `k` appends therefore *is* the MMR of the first `k`
+elements: same root, same peaks, and the proof of every present leaf is the one proved complete
+and sound above. Pruning leaves changes neither root nor peaks nor the proof of any other leaf. -/
+section views
+variable {α H : Type} [DecidableEq H]
+
+omit [DecidableEq H] in
+/-- the first `mmr k` hashes of the MMR of `xs` are the MMR of the first `k` elements -/
+theorem hashes_take (hf : HashFn α H) (xs : List α) (k : Nat) (hk : k ≤ xs.length) :
+    (Spec.Mmr.hashes hf xs).take (mmr k) = Spec.Mmr.hashes hf (xs.take k) := by
+  by_cases hne : xs = []
+  · subst hne
+    have : k = 0 := by simpa using hk
+    subst this
+    simp [Spec.Mmr.hashes, Spec.Mmr.build]
+  · obtain ⟨f, hxs, _⟩ := list_as_fn xs hne
+    generalize xs.length = N at hxs hk
+    subst hxs
+    have ht : ((List.range N).map f).take k = (List.range k).map f := by
+      rw [← List.map_take, List.take_range, Nat.min_eq_left hk]
+    rw [ht, spec_hashes, spec_hashes]
+    have hp := allHashes_prefix hf f hk
+    rw [List.prefix_iff_eq_take] at hp
+    rw [allHashes_length] at hp
+    exact hp.symm
+
+/-- **view_root.** A view at the size reached after `k ≤ xs.length` appends, over a backend that
+holds all of `xs` and any remove log `R`, has the root and the peaks of the defining construction
+on the first `k` elements. -/
+theorem view_root (hf : HashFn α H) (xs : List α) (hb : xs.length ≤ 2^65) (k : Nat)
+    (hk : k ≤ xs.length) (R : List Nat) :
+    vRoot hf ⟨Spec.Mmr.hashes hf xs, R⟩ (mmr k) = (match Spec.Mmr.root hf (xs.take k) with
+        | none => .zero
+        | some r => .ok r)
+    ∧ vPeaks ⟨Spec.Mmr.hashes hf xs, R⟩ (mmr k) = Spec.Mmr.peakHashes hf (xs.take k) := by
+  have hb' : (xs.take k).length ≤ 2^65 := by simp; omega
+  obtain ⟨_, _, _, _, h5, h6, _⟩ := push_root hf (xs.take k) hb'
+  simp only [vRoot, vPeaks, vFile, hashes_take hf xs k hk]
+  exact ⟨h6, h5⟩
+
+/-- **view_proof_complete.** In such a view the proof of every leaf `i < k` that is not in the
+remove log is produced, records the view's size and verifies against the view's root for exactly
+`xs[i]` at its position - whatever else has been pruned. -/
+theorem view_proof_complete (hf : HashFn α H) (xs : List α) (k : Nat) (hk : k ≤ xs.length)
+    (R : List Nat) (i : Nat) (hi : i < k) (hpresent : mmr i ∉ R) :
+    ∃ path r, vProof hf ⟨Spec.Mmr.hashes hf xs, R⟩ (mmr k) (mmr i) = some (mmr k, path)
+      ∧ Spec.Mmr.root hf (xs.take k) = some r
+      ∧ verify hf r (mmr k) path (xs[i]'(by omega)) (mmr i) = true := by
+  have hlen : (xs.take k).length = k := by simp; omega
+  have hi' : i < (xs.take k).length := by omega
+  obtain ⟨path, r, h1, h2, h3⟩ := proof_complete hf (xs.take k) i hi'
+  rw [hlen] at h1 h3
+  refine ⟨path, r, ?_, h2, ?_⟩
+  · have hleaf : isLeaf (mmr i) = true := (isLeaf_iff (mmr i)).2 ⟨i, rfl⟩
+    have hlt : mmr i < mmr k := mmr_lt_mmr hi
+    have hsome := hash_at_leaf hf xs i (by omega)
+    have hrem : R.contains (mmr i) = false := by
+      simpa using hpresent
+    simp only [vProof, vGetHash, hleaf, hrem, hsome, vFile, hashes_take hf xs k hk]
+    simpa [Nat.not_le.mpr hlt] using h1
+  · simpa using h3
+
+/-- **view_proof_sound.** Against the root of such a view a verifying proof pins a leaf of the
+first `k` elements, its element and the whole path (collision-free hashes). -/
+theorem view_proof_sound (hf : HashFn α H) (cf : CollisionFree hf) (xs : List α) (k : Nat)
+    (hk : k ≤ xs.length) (r : H) (hr : Spec.Mmr.root hf (xs.take k) = some r)
+    (path : List H) (e : α) (pos : Nat) (hv : verify hf r (mmr k) path e pos = true) :
+    ∃ (i : Nat) (hi : i < k), pos = mmr i ∧ e = xs[i]'(by omega) := by
+  have hlen : (xs.take k).length = k := by simp; omega
+  have hv' : verify hf r (mmr (xs.take k).length) path e pos = true := by rw [hlen]; exact hv
+  obtain ⟨i, hi, hp, he, _⟩ := proof_sound_any_position hf cf (xs.take k) r hr path e pos hv'
+  refine ⟨i, by omega, hp, ?_⟩
+  rw [he]; simp
+
+omit [DecidableEq H] in
+/-- a pruned leaf has no proof -/
+theorem view_proof_pruned (hf : HashFn α H) (b : Backend H) (size pos : Nat)
+    (h : pos ∈ b.removed) : vProof hf b size pos = none := by
+  unfold vProof vGetHash
+  by_cases hl : isLeaf pos = true
+  · simp [hl, h]
+  · simp [hl]
+
+/-- **prune_effect.** A successful `prune(pos)` changes neither the root nor the peaks of any view,
+leaves the proof of every other position as it was, and removes the proof of `pos`; an
+unsuccessful one (`false`) changes nothing. -/
+theorem prune_effect (hf : HashFn α H) (b b' : Backend H) (size pos : Nat) (ok : Bool)
+    (h : prune b size pos = some (ok, b')) :
+    (∀ s, vRoot hf b' s = vRoot hf b s) ∧ (∀ s, vPeaks b' s = vPeaks b s)
+    ∧ (∀ s q, q ≠ pos → vProof hf b' s q = vProof hf b s q)
+    ∧ (ok = true → ∀ s, vProof hf b' s pos = none)
+    ∧ (ok = false → b' = b) := by
+  unfold prune at h
+  split at h
+  · cases h
+  · split at h
+    · injection h with h; injection h with h1 h2
+      subst h1; subst h2
+      exact ⟨fun _ => rfl, fun _ => rfl, fun _ _ _ => rfl, fun h => Bool.noConfusion h, fun _ => rfl⟩
+    · injection h with h; injection h with h1 h2
+      subst h1; subst h2
+      refine ⟨fun _ => rfl, fun _ => rfl, ?_, ?_, fun h => Bool.noConfusion h⟩
+      · intro s q hq
+        have hc : (pos :: b.removed).contains q = b.removed.contains q := by
+          simp [hq]
+        simp only [vProof, vGetHash, vFile, hc]
+      · intro _ s
+        exact view_proof_pruned hf _ s pos (by simp)
+
+/-- `RewindablePMMR::rewind` positions the view at the rounded-up leaf boundary - in either
+direction: the result does not depend on where the view was -/
+theorem rewindView_valid_size (k : Nat) : rewindView (mmr k) = mmr k := by
+  unfold rewindView
+  have := roundUp_spec k 0 (Nat.zero_le _)
+  simpa using this
+
+end views
+
 section example7
 
 /-- hypotheses of `proof_complete` / `proof_sound` and of all corollaries are satisfiable together:
